@@ -93,6 +93,20 @@ def run_c16(tier, seed, replay):
                              # history: every third archive is written over an older, larger one at the same path
                              "overwrite": j % 3 == 1})
     if not replay:
+        # archives written by the library's own driver (analysis::analyse_formulae): entry i must be the result of line i;
+        # formula lists of mixed heights, deep formulae before shallow ones, repeated lines
+        for m in nets:
+            fm = formats_of(m, wd)
+            for j in range(6 if tier == "thorough" else 2):
+                fg = gen.FormulaGen(rng, m["vars"], p_quant=0.3, max_nest=2, patterns=0.1)
+                fs = [fg.gen(rng.choice([1, 2, 6, 9])) for _ in range(rng.randint(2, 5))]
+                fs.sort(key=lambda f: -gen.size(f) if j % 2 == 0 else rng.random())
+                if rng.random() < 0.3:
+                    fs.append(fs[0])
+                texts = [gen.render(f) for f in fs]
+                k = max([gen.depth(f) for f in fs] + [0])
+                jobs.append({"id": "%s-a%d" % (m["id"], j), "kinds": ["c16"], "via_analyse": True, "model": fm["aeon"], "format": "aeon",
+                             "k": k, "formulae": texts})
         # large sets (tens of thousands of BDD nodes, entries of hundreds of kilobytes) on a 24-variable ring
         for j in range(3 if tier == "thorough" else 1):
             jobs.append({"id": "big-%d" % j, "kinds": ["c16"], "big": True, "ring": 24, "k": 1,
